@@ -22,6 +22,7 @@ import (
 	"encoding/binary"
 	"encoding/hex"
 	"encoding/json"
+	"flag"
 	"fmt"
 	"math"
 	"reflect"
@@ -960,7 +961,8 @@ func wireMembers(path string, v reflect.Value, obj map[string]any, seen map[stri
 			if want {
 				return fmt.Sprintf("%s (%s): member %q is missing from the encoded object", fp, show(fv), sp.JSON)
 			}
-			return fmt.Sprintf("%s: optional member %q is unset but the encoded object carries it (as %v); an absent optional member must not be sent", fp, sp.JSON, got)
+			gb, _ := json.Marshal(got)
+			return fmt.Sprintf("%s: optional member %q is unset but the encoded object carries it (as %s); an absent optional member must not be sent", fp, sp.JSON, gb)
 		}
 		if !present {
 			continue
@@ -1193,6 +1195,8 @@ func TestProp(t *testing.T) {
 	if err := ref.SelfTest(); err != nil {
 		t.Fatal(err)
 	}
+	// the struct cases carry tapes of up to 1200 bytes: bound the time rapid spends minimising a failure (default 30 s)
+	_ = flag.Set("rapid.shrinktime", "6s")
 
 	evid.Exhaustive(r, t, "frequency-sweep",
 		"Frequency, enumerated: quick = every Hz in [0, 2 MHz], every multiple of 100 Hz below 200 MHz and in the LoRa bands 433-435, 470-510, 779-787, 863-870, 902-928, 2400-2483.5 MHz, every Hz in [2^32-2000, 2^32]; thorough = every Hz in [0, 20 MHz], every multiple of 100 Hz up to 2^32, every Hz of the listed bands, every Hz in [2^32-2000, 2^32]. Oracle: the JSON number times 10^6 is the value to within 0.5 Hz (MHz on the wire) and Unmarshal(Marshal(f)) == f. Non-trivial: the float product (f/10^6)*10^6 is not exactly f, so that the decoder has to round.",
